@@ -1028,4 +1028,71 @@ def checkMntTwist (c : MntCfg) : Bool :=
   && c.g2a == t.mul (embed t c.g1a) u2
   && c.g2b == t.mul (embed t c.g1b) (t.mul u2 c.twist)
 
+/-! ## WB isogenies: the polynomial identity (dense polynomials over a tower)
+
+  A polynomial is its list of coefficients (`El`s of the tower), constant term first — the same
+  convention as `IsogenyMap::{x,y}_map_{numerator,denominator}` (`DensePolynomial::from_coefficients_slice`)
+  and as `Tw.evalPoly`.  Schoolbook arithmetic, structural recursion only. -/
+
+def polyAdd (t : Tw) : List El → List El → List El
+  | [], q => q
+  | a :: p, [] => a :: p
+  | a :: p, b :: q => t.add a b :: polyAdd t p q
+
+/-- `c · p` -/
+def polyScale (t : Tw) (c : El) : List El → List El
+  | [] => []
+  | a :: p => t.mul c a :: polyScale t c p
+
+/-- `(a + X·p)·q = a·q + X·(p·q)` -/
+def polyMul (t : Tw) : List El → List El → List El
+  | [], _ => []
+  | a :: p, q => polyAdd t (polyScale t a q) (t.zero :: polyMul t p q)
+
+/-- normal form: trailing (= leading-degree) zero coefficients stripped -/
+def polyNorm : List El → List El
+  | [] => []
+  | a :: p =>
+    match polyNorm p with
+    | [] => if isZero a then [] else [a]
+    | q => a :: q
+
+/-- `(X³ + a'X + b') · yNum² · xDen³` with `(a', b')` the coefficients of the isogenous curve -/
+def wbIsoLhs (c : WbCfg) : List El :=
+  let t := c.curve.tower
+  polyMul t (polyMul t [c.iso.b, c.iso.a, t.zero, t.one] (polyMul t c.yNum c.yNum))
+    (polyMul t c.xDen (polyMul t c.xDen c.xDen))
+
+/-- `yDen² · (xNum³ + a·xNum·xDen² + b·xDen³)` with `(a, b)` the coefficients of the target curve -/
+def wbIsoRhs (c : WbCfg) : List El :=
+  let t := c.curve.tower
+  let xd2 := polyMul t c.xDen c.xDen
+  polyMul t (polyMul t c.yDen c.yDen)
+    (polyAdd t (polyAdd t (polyMul t c.xNum (polyMul t c.xNum c.xNum))
+                          (polyScale t c.curve.a (polyMul t c.xNum xd2)))
+               (polyScale t c.curve.b (polyMul t c.xDen xd2)))
+
+/-- **the isogeny `(x, y) ↦ (xNum(x)/xDen(x), y·yNum(x)/yDen(x))` maps `E' : y² = x³ + a'x + b'` into
+    `E : y² = x³ + ax + b` as an identity of polynomials** (not only at the generator, cf.
+    `checkWbImageOnCurve`): substituting and clearing denominators,
+    `(X³ + a'X + b')·yNum²·xDen³ = yDen²·(xNum³ + a·xNum·xDen² + b·xDen³)` coefficient by coefficient;
+    all the data well formed (reduced coordinates, right arity). -/
+def checkWbIsoIdentity (c : WbCfg) : Bool :=
+  let t := c.curve.tower
+  wf t c.iso.a && wf t c.iso.b && wf t c.curve.a && wf t c.curve.b
+  && allB (wf t) c.xNum && allB (wf t) c.xDen && allB (wf t) c.yNum && allB (wf t) c.yDen
+  && polyNorm (wbIsoLhs c) == polyNorm (wbIsoRhs c)
+
+/-! ### GLV: the halves of the decomposition fit the joint double-and-add ladder -/
+
+/-- number of 64-bit limbs of the scalar field's `BigInt` -/
+def GlvCfg.scalarLimbs (c : GlvCfg) : Nat := c.curve.r.log2 / 64 + 1
+
+/-- `|k1| ≤ |n11| + |n21|` and `|k2| ≤ |n12| + |n22|` for every scalar (proved in `Ark/Proofs/GlvEndo.lean`
+    from `det N = r`); the GLV ladder in `glv.rs` needs both halves below `r` (they are converted through the
+    scalar field) and below `2^(64·N − 1)` (its bit iterator drops nothing only below the top bit) -/
+def checkGlvLadderBound (c : GlvCfg) : Bool :=
+  let m := min c.curve.r (2 ^ (64 * c.scalarLimbs - 1))
+  decide ((c.n 0).natAbs + (c.n 2).natAbs < m) && decide ((c.n 1).natAbs + (c.n 3).natAbs < m)
+
 end Ark.Cfg
